@@ -2,10 +2,12 @@ module wgv
 
 go 1.23.1
 
-require golang.zx2c4.com/wireguard v0.0.0
+require (
+	golang.org/x/crypto v0.37.0
+	golang.zx2c4.com/wireguard v0.0.0
+)
 
 require (
-	golang.org/x/crypto v0.37.0 // indirect
 	golang.org/x/net v0.39.0 // indirect
 	golang.org/x/sys v0.32.0 // indirect
 )
